@@ -327,18 +327,24 @@ def _paths(stmts, env, conds, out, counter, budget=[0]):
         if isinstance(st, ast.If):
             test = c(st.test)
             rest = stmts[i + 1:]
-            _paths(list(st.body) + rest, env, conds + (test,), out, counter)
+            _paths(list(st.body) + rest, env, conds + (_cond(test),), out, counter)
             _paths(list(st.orelse) + rest, env, conds + (_neg(test),), out, counter)
             return
         raise Undecidable(f"statement outside the fragment: {norm(st)[:80]}")
     out.append((conds, const(None)))
 
 
+def _cond(t):
+    """a term in condition position: truth(x) and x are the same test"""
+    while t[0] == "truth":
+        t = t[1]
+    return t
+
+
 def _neg(t):
+    t = _cond(t)
     if t[0] == "not":
-        return ("truth", t[1])
-    if t[0] == "truth":
-        return ("not", t[1])
+        return _cond(t[1])
     return ("not", t)
 
 
@@ -484,7 +490,7 @@ def lift_conditionals(paths, limit=64):
             continue
         limit -= 1
         work.insert(0, (conds + (_neg(ie[1]),), _replace(res, ie, ie[3])))
-        work.insert(0, (conds + (ie[1],), _replace(res, ie, ie[2])))
+        work.insert(0, (conds + (_cond(ie[1]),), _replace(res, ie, ie[2])))
     out.extend(work)
     # drop paths whose conditions contradict each other (c and not c)
     keep = []
